@@ -36,7 +36,7 @@ PARTIAL["C11"] = "proved for all inputs: the ten ClientServiceState flag helpers
 PARTIAL["C13"] = "proved for all inputs: the server handlers keep mem.state == recorded state and write config before the state record (contracts over the ghost disk); the client resynchronisation recovers both upload flags from the init echo; bounded stand-in: every file-system mutation of the seven persisting steps, kill before/after, restart, finish the workflow (in-process kill simulation)"
 PARTIAL["C09"] = "proved for all inputs: server handlers store exactly the received bytes and report/guard by the recorded state; client resynchronisation; bounded stand-in: the documented workflow over loopback websockets for all nine schemes with client re-creation and server restarts; the end-to-end composition lemma is not mechanised"
 PARTIAL["C19"] = "proved for all array lengths, item sizes, chunk sizes, indices and slices over the ghost file system (D2): index -> (file, offset) mapping and lazy file cache, int reads/writes with negative indices against the abstract view (a list of left-zero-padded items; unwritten regions read as zeros), slice reads, slice assignment (element-wise up to the shorter of slice and values, never resizing) WITH ROLLBACK -- a refused item in the middle of a slice assignment leaves every item as it was --, element and slice deletion and clear (zero fill), iteration, exact exception conditions with no effect on any file, create/reopen through the meta file, typestate closed => every operation raises ValueError, only the array's own chunk files are ever created or changed, client lemmas write->close->reopen, clear, failed write, failed slice write; bounded stand-in only: membership, from_list, release, non-bytes items inside a slice assignment, and mixed operation histories against a list model"
-PARTIAL["C20"] = "proved for all inputs over the ghost file system (D2) and pickle round trip (P1): every PickledDict operation equals dict's and touches no file; sync/close leave exactly pickle(contents) in the file and install the closed marker (typestate); open recovers the contents; from_dict copies; create on an existing / open on a missing path refuse; every operation on a closed dictionary raises ValueError; client lemmas close->reopen, sync->open, from_dict independence, close twice; bounded stand-in only: DBMDict / BytesShelf (one session) and mixed operation histories against a dict model"
+PARTIAL["C20"] = "proved for all inputs over the ghost file system (D2) and pickle round trip (P1): every PickledDict operation equals dict's and touches no file; sync/close leave exactly pickle(contents) in the file and install the closed marker (typestate); open recovers the contents; from_dict copies; create on an existing / open on a missing path refuse; every operation on a closed dictionary raises ValueError; client lemmas close->reopen, sync->open, from_dict independence, close twice. DBMDict within one session (D3: the dbm handle is a dict of byte strings): BytesShelf get/set/delete/contains/len/iteration/get-with-default/sync/clear under contract with the invariant 'every cached value is the unpickled record of a present key' (clear = MutableMapping.clear restated as ghost code, or the repository's own definition if it has one), DBMDict delegation and refusal of non-bytes values without effect, client lemmas set->get, delete->contains, clear->len. Bounded stand-in only: DBMDict construction/close/reopen (dbm files), and mixed operation histories against a dict model"
 
 SCHEME_CLASSES = [("schemes/CJJ14/PiBas/construction.py", "PiBas"), ("schemes/CJJ14/PiPack/construction.py", "PiPack"),
                   ("schemes/CJJ14/PiPtr/construction.py", "PiPtr"), ("schemes/CJJ14/Pi2Lev/construction.py", "Pi2Lev"),
